@@ -49,6 +49,7 @@ def boundary_slice(x, threshold=0, pad=(0, 0)):
         Boundary slices
 
     """
+    x = np.asarray(x)
     pad = np.asarray(pad)
     if pad.shape == ():
         pad = np.append(pad, pad)
